@@ -195,6 +195,11 @@ def r1_agreement(rep, ctx):
                 rep.bad("C02.R1", "_ConvertWithExp:delegation", "delegates with %s instead of Convert(quantity type, source unit, target unit, ...)" % show(a_, 120), node=r, fn=fn)
                 continue
             if sh is None:
+                if a_[0] == "call" and a_[1] in POW and len(a_[2]) == 2 and a_[2][1] == TO_E and any(b_[0] == "op" and b_[1] == "USub" for b_ in alternatives(a_[2][0])):
+                    rep.bad("C02.R1", "_ConvertWithExp:sign", "the sign of a negative value is put back *before* raising to the target exponent (%s): an even exponent loses it" % show(a_, 100), node=r, fn=fn)
+                    seen.setdefault("power", []).append(r)
+                    seen.setdefault("neg-power", []).append(r)
+                    continue
                 unrooted = [x for x in walk(a_) if x[0] == "call" and x[1] == ("field", "Convert") and len(x[2]) == 4 and magnitude(x[2][3])]
                 if unrooted and any(x[0] == "call" and x[1] in POW for x in walk(a_)):
                     rep.bad("C02.R1", "_ConvertWithExp:root-convert-power", "the value raised to the exponent is converted without its root being taken first (%s): the exponent arm does not take the root before and the power after the conversion" % show(a_, 120), node=r, fn=fn)
@@ -266,6 +271,31 @@ def r2_delegation(rep, ctx):
                 tgt_ok = len(args) == 2 and args[1] == ("param", 2, "unit")
                 ok = src_ok and val_ok and tgt_ok
                 why = "converts %s from %s to %s" % (show(args[0]) if args else None, show(recv, 80), show(args[1]) if len(args) > 1 else None)
+        # must-pass-through: a return that may hand back the category's default value either passed the
+        # conversion or an edge on which `unit is None` holds (no unit requested)
+        from ..facts import norm_fact, none_fact
+        dcfg = CFG(fn.node)
+        dres = Resolver(m, fn)
+        conv_nodes = {dcfg.node_of(c) for c in own_nodes(fn.node) if isinstance(c, ast.Call) and isinstance(c.func, ast.Attribute) and c.func.attr in ("ConvertScalarValue", "Convert", "ConvertFractionValue")}
+        none_edges = set()
+        for nid in dcfg.nodes("test"):
+            for lab in ("T", "F"):
+                nf = none_fact(norm_fact(dcfg.ast[nid], lab == "T"))
+                if nf and nf[1] and dres.term(nf[0]) == ("param", fn.params.index("unit"), "unit") if "unit" in fn.params else False:
+                    none_edges |= {(nid, b_, l_) for (b_, l_) in dcfg.succ[nid] if l_ == lab}
+        reach_ = dcfg.reach(dcfg.ENTRY, avoid=conv_nodes, avoid_edges=none_edges)
+        for rn in dcfg.returns():
+            rst = dcfg.ast[rn]
+            if rst.value is None:
+                continue
+            rt = dres.term(rst.value)
+            may_be_default = any(any(s_[0] == "attr" and s_[2] == "default_value" for s_ in walk(a_)) for a_ in alternatives(rt))
+            if may_be_default:
+                n += 1
+                rep.check(rn not in reach_, "C02.R2", "%s._GetDefaultValue:converted-on-every-path:%s" % (cname, norm(ast.unparse(rst))[:40]),
+                          "the default value is returned unconverted only when no unit was requested",
+                          "%s._GetDefaultValue can return the category's default value without converting it although a unit was requested (the conversion is skipped on some path): an object created from a category default in a non-default unit does not carry the amount of that default" % cname,
+                          node=rst, fn=fn)
         n += 1
         rep.check(ok, "C02.R2", "%s._GetDefaultValue" % cname, "the category default is converted from the category's default unit to the requested unit",
                   "%s._GetDefaultValue %s: an object created from a category default in a non-default unit does not carry the amount of that default" % (cname, why), fn=fn)
